@@ -107,7 +107,7 @@ func runC15(c *Ctx) {
 			nRef++
 			c.Sites++
 			c.seeFn(funcName(fn))
-			ts := refTemplates(fn, arg)
+			ts := refTemplatesThroughCallers(w, fn, arg, 0)
 			var shapes []string
 			ok := len(ts) > 0
 			for _, t := range ts {
@@ -468,14 +468,33 @@ func checkStoreTree(c *Ctx) {
 	okSlash := false
 	if mc, isMC := sortCall.Args()[1].(*ssa.MakeClosure); isMC {
 		less := mc.Fn.(*ssa.Function)
-		nSlash := 0
-		for _, b := range less.Blocks {
-			for _, ins := range b.Instrs {
-				if bo, isBo := ins.(*ssa.BinOp); isBo && bo.Op.String() == "+" {
-					if s, isS := constString(bo.Y); isS && s == "/" {
-						nSlash++
+		// "name + '/'" under "ObjectType == Tree", for both elements: inline, or through a same-package
+		// key function applied to each element
+		slashes := func(f *ssa.Function) int {
+			n := 0
+			for _, b := range f.Blocks {
+				for _, ins := range b.Instrs {
+					bo, isBo := ins.(*ssa.BinOp)
+					if !isBo || bo.Op.String() != "+" {
+						continue
+					}
+					if s, isS := constString(bo.Y); !isS || s != "/" {
+						continue
+					}
+					for _, cc := range controlConds(b, nil) {
+						if cb, isCB := cc.If.Cond.(*ssa.BinOp); isCB && cb.Op == token.EQL && cc.Edge == 0 && (hasField(cb.X, "ObjectType") || hasField(cb.Y, "ObjectType")) {
+							n++
+							break
+						}
 					}
 				}
+			}
+			return n
+		}
+		nSlash := slashes(less)
+		for _, cl := range Calls(less) {
+			if h := cl.Fn; h != nil && h.Pkg == less.Pkg && len(h.Blocks) > 0 {
+				nSlash += slashes(h)
 			}
 		}
 		okSlash = nSlash >= 2
@@ -739,12 +758,53 @@ func runC14(c *Ctx) {
 		c.seeFn(funcName(ir))
 		// every RemoveRef argument is an element [0] of a ListRefs result guarded by len == 1; ListRefs prefixes end with the id
 		okArgs := true
+		// the values handed to RemoveRef: directly, or through a same-package helper that removes
+		// the elements of a slice it is given
+		var removed [][]ssa.Value
 		for _, cl := range Calls(ir) {
-			if primEffect(cl.Name) != "REF:RemoveRef" {
+			if primEffect(cl.Name) == "REF:RemoveRef" {
+				removed = append(removed, appendedValuesOfElem(cl.Args()[0]))
 				continue
 			}
+			h := cl.Fn
+			if h == nil || h.Pkg != ir.Pkg || h == ir || len(h.Blocks) == 0 {
+				continue
+			}
+			for _, hc := range Calls(h) {
+				if primEffect(hc.Name) != "REF:RemoveRef" {
+					continue
+				}
+				u, isU := hc.Args()[0].(*ssa.UnOp)
+				if !isU {
+					okArgs = false
+					continue
+				}
+				ia, isIA := u.X.(*ssa.IndexAddr)
+				if !isIA {
+					okArgs = false
+					continue
+				}
+				found := false
+				for i, pp := range h.Params {
+					if isSameParam(ia.X, pp) && i < len(cl.Instr.Common().Args) {
+						removed = append(removed, appendedValues(cl.Instr.Common().Args[i]))
+						found = true
+					}
+				}
+				if !found {
+					okArgs = false
+				}
+			}
+		}
+		if len(removed) == 0 {
+			okArgs = false
+		}
+		for _, vals := range removed {
 			c.Sites++
-			for _, v := range appendedValuesOfElem(cl.Args()[0]) {
+			if len(vals) == 0 {
+				okArgs = false
+			}
+			for _, v := range vals {
 				u, isU := v.(*ssa.UnOp)
 				if !isU {
 					okArgs = false
@@ -1466,4 +1526,70 @@ func originNames(v ssa.Value) string {
 	}
 	sort.Strings(ns)
 	return strings.Join(ns, ",")
+}
+
+// refTemplatesThroughCallers: like refTemplates, but a ref name that is (an element of) a parameter of
+// an unexported function is replaced by what the function's callers in the module pass for it
+// (depth 2): a loop over refs moved into a helper keeps the shape of the names it is given.
+func refTemplatesThroughCallers(w *World, fn *ssa.Function, arg ssa.Value, depth int) []Template {
+	ts := refTemplates(fn, arg)
+	if depth >= 2 {
+		return ts
+	}
+	var out []Template
+	for _, t := range ts {
+		pname := ""
+		elemMode := false
+		if len(t) == 1 && strings.HasPrefix(t[0].Hole, "param:") {
+			pname = strings.TrimPrefix(t[0].Hole, "param:")
+		}
+		if len(t) == 1 && strings.HasPrefix(t[0].Hole, "elem-of:param:") {
+			pname = strings.TrimPrefix(t[0].Hole, "elem-of:param:")
+			elemMode = true
+		}
+		root := fn
+		for root.Parent() != nil {
+			root = root.Parent()
+		}
+		if pname == "" || root != fn || (fn.Object() != nil && fn.Object().Exported()) {
+			out = append(out, t)
+			continue
+		}
+		pidx := -1
+		for i, pp := range fn.Params {
+			if pp.Name() == pname {
+				pidx = i
+			}
+		}
+		var subst []Template
+		for _, g := range w.ModFns {
+			if isInstance(g) || g == fn || fnPkgPath(g) != fnPkgPath(fn) {
+				continue
+			}
+			for _, cl := range Calls(g) {
+				if cl.Fn != fn || pidx < 0 || pidx >= len(cl.Instr.Common().Args) {
+					continue
+				}
+				a := cl.Instr.Common().Args[pidx]
+				if elemMode {
+					// the elements of the slice handed over
+					vals := appendedValues(a)
+					if len(vals) == 0 {
+						vals = sliceElementValues(a)
+					}
+					for _, ev := range vals {
+						subst = append(subst, refTemplatesThroughCallers(w, g, ev, depth+1)...)
+					}
+					continue
+				}
+				subst = append(subst, refTemplatesThroughCallers(w, g, a, depth+1)...)
+			}
+		}
+		if len(subst) == 0 {
+			out = append(out, t)
+		} else {
+			out = append(out, subst...)
+		}
+	}
+	return dedupT(out)
 }
